@@ -39,6 +39,8 @@ type jconn struct {
 	*hconn.Conn
 	mu   sync.Mutex
 	path string
+	// off: messages the connector accepts are NOT journalled (after a restart the connector cannot deliver them again)
+	off bool
 }
 
 type jrec struct {
@@ -76,7 +78,7 @@ func (j *jconn) load() {
 
 func (j *jconn) CreateMessage(ctx context.Context, cache connector.IMAPStateWrite, mboxID imap.MailboxID, literal []byte, flags imap.FlagSet, date time.Time) (imap.Message, []byte, error) {
 	m, l, err := j.Conn.CreateMessage(ctx, cache, mboxID, literal, flags, date)
-	if err == nil {
+	if err == nil && !j.off {
 		j.journal(string(m.ID), literal)
 	}
 	return m, l, err
@@ -367,6 +369,9 @@ func childMain() {
 				continue
 			}
 			out.Encode(resp{OK: true, Snap: s})
+		case "journal":
+			jc.off = q.Mode == "off"
+			out.Encode(resp{OK: true})
 		case "failnext":
 			hc.SetFailNext(q.Name, fmt.Errorf("verif: connector refuses %s", q.Name))
 			out.Encode(resp{OK: true})
